@@ -32,6 +32,10 @@ os.environ.setdefault("PYTHONHASHSEED", "0")
 
 import core  # noqa: E402
 
+# the implementation under test: /repo's working tree (MOLGRI_REPO overrides it for development on a scratch worktree)
+if os.environ.get("MOLGRI_REPO"):
+    sys.path.insert(0, os.environ["MOLGRI_REPO"])
+
 CHUNK = 400
 
 
@@ -92,7 +96,7 @@ def main():
     try:
         ctx = core.Ctx(prop, a.tier, seed)
         if a.no_audit:
-            thms = json.loads((core.LEAN / "theorems.json").read_text()).get(prop, [])
+            thms = core.load_theorems(prop)
             audit = {"ok": True, "problems": [], "obligations": len(thms), "discharged": len(thms), "theorems": thms}
         else:
             audit = core.build_and_audit(prop)
